@@ -127,6 +127,12 @@ static Result run_case (const Case &c)
 	SF_INFO ri ; memset (&ri, 0, sizeof (ri)) ;
 	if ((format & SF_FORMAT_TYPEMASK) == SF_FORMAT_RAW) { ri.format = format ; ri.channels = ch ; ri.samplerate = wi.samplerate ; }
 	SNDFILE *g = path ? sf_open (fname.c_str (), SFM_READ, &ri) : open_mem (mem, SFM_READ, &ri) ;
+	// SD2 keeps its parameters in a resource fork and the data fork is headerless: if the audio bytes themselves look like
+	// another container (e.g. start with 01 04 = MPC2K) the library's format detection takes that (listed finding)
+	if ((format & SF_FORMAT_TYPEMASK) == SF_FORMAT_SD2 && path)
+	{	std::vector<uint8_t> fork ; read_file (fname, fork) ; MemFile probe ; probe.data = fork ; SF_INFO pi ; memset (&pi, 0, sizeof (pi)) ;
+		SNDFILE *pf = open_mem (probe, SFM_READ, &pi) ; if (pf) { sf_close (pf) ; r.sig.set ("sd2_datafork_looks_like", major_name (pi.format)) ; }
+	}
 	if (!g) return fail ("reopen_failed", sf_strerror (nullptr)) ;
 	if (ri.channels != ch) { sf_close (g) ; return fail ("channels_changed", std::to_string (ri.channels)) ; }
 	if (ri.frames < N) { std::string d = "frames " + std::to_string ((long long) ri.frames) + " < N " + std::to_string (N) ; sf_close (g) ; return fail ("frames_short", d) ; }
